@@ -615,6 +615,20 @@ def printer_programs():
                                Loop(Block([Expr(Block([], I(3))), Break()]))], V("i")), "int"),
         "main": Fn([], Block([Print(Call("f", I(9)), Call("f", I(1)), V("cnt"), Call("g", I(1)), Call("h", I(4)), Call("k", I(2))),
                               Expr(If(B(True), Block([], I(1)), Block([], I(2))))]))}, globs=[("cnt", I(0))])
+    # what stands in an else block: only an if (an else-if chain), statements and then an if, other block-like values
+    add("else_blocks", {
+        "grade": Fn(["n"], Block([], If(Bin(">", V("n"), I(10)), Block([], S("big")),
+                                         Block([Let("half", Bin("/", V("n"), I(2))), Print(S("visiting"), V("n"))],
+                                               If(Bin(">", V("half"), I(2)), Block([], S("mid")), Block([], S("small")))))), "str"),
+        "chain": Fn(["n"], Block([], If(Bin("==", V("n"), I(0)), Block([], S("zero")), Block([], If(Bin("==", V("n"), I(1)), Block([], S("one")),
+                                         Block([], If(Bin("==", V("n"), I(2)), Block([], S("two")), Block([], S("many")))))))), "str"),
+        "walk": Fn(["n"], Block([Let("k", V("n")), While(Bin(">", V("k"), I(0)), Block([
+                                     Expr(If(Bin("==", Bin("%", V("k"), I(2)), I(0)), Block([Print(S("even"), V("k"))]),
+                                             Block([Expr(Asg(V("cnt"), I(1), "+="))], If(Bin(">", V("k"), I(3)), Block([Print(S("odd big"), V("k"))]), Block([Print(S("odd"), V("k"))]))))),
+                                     Expr(Asg(V("k"), I(1), "-="))]))])),
+        "other": Fn(["n"], Block([], If(Bin("<", V("n"), I(0)), Block([], I(0)), Block([Let("d", Bin("*", V("n"), I(2)))], Match(V("d"), [([I(4)], I(40))], Bin("+", V("d"), I(1)))))), "int"),
+        "main": Fn([], Block([Print(Call("grade", I(20)), Call("grade", I(6)), Call("grade", I(2))), Print(Call("chain", I(0)), Call("chain", I(1)), Call("chain", I(2)), Call("chain", I(9))),
+                              Expr(Call("walk", I(5))), Print(V("cnt"), Call("other", I(2)), Call("other", I(5)), Call("other", Un("-", I(1))))]))}, globs=[("cnt", I(0))])
     add("types", {
         "ids": Fn(["a", "b", "c", "d", "e"], Block([Print(V("a"), V("b"), V("c"), V("d"), CallV(V("e"), I(1)))]), "null",
                   ["[[int]]", "?[str]", "{ x: int, y: ?str }", "{ ? }", "fn(v: int) -> [int]"]),
@@ -707,6 +721,22 @@ def order_programs(seed=0):
                      Let("l", List(V("o"), V("p"))), Print(V("l")),
                      Let("w", Obj(inner=V("o"), other=Obj(y=S("s"), x=List(I(1), I(2))), n=I(0))), Print(V("w"))),
                 fields=n)
+    # the field initialisers of an object literal (and list elements, call arguments) run in the order they are written
+    tick = Fn(["tag"], Block([Expr(Asg(V("ticks"), I(1), "+=")), Print(S("tick"), V("tag"), V("ticks"))], V("ticks")), "int", ["str"])
+    for variant in range(3):
+        ks = names[:6]
+        rnd.shuffle(ks)
+        fields = {k: Call("tick", S(k)) for k in ks}
+        progs.append(Program("o_init_order_%d" % variant,
+                             {"tick": tick, "main": Fn([], Block([Let("o", Obj(**fields)), Print(V("o")),
+                                                                  Let("l", List(*[Call("tick", S("l%d" % i)) for i in range(4)])), Print(V("l")),
+                                                                  Let("w", Obj(first=Call("tick", S("first")), inner=Obj(a=Call("tick", S("ia")), b=Call("tick", S("ib"))), last=Call("tick", S("last")))),
+                                                                  Print(Mem(V("w"), "first"), Mem(Mem(V("w"), "inner"), "a"), Mem(Mem(V("w"), "inner"), "b"), Mem(V("w"), "last"))]))},
+                             globs=[("ticks", I(0))], feats={"family": "order", "template": "init_order_%d" % variant}))
+    # ... also when one of them ends the program: which exception is raised does not depend on a map
+    boom = Fn(["tag"], Block([Expr(If(V("armed"), Block([Expr(Call("throw", V("tag")))])))], I(0)), "int", ["str"])
+    progs.append(Program("o_init_throw", {"boom": boom, "main": Fn([], Block([Let("o", Obj(zeta=Call("boom", S("zeta")), alpha=Call("boom", S("alpha")), mid=Call("boom", S("mid")))), Print(V("o"))]))},
+                         globs=[("armed", B(True))], feats={"family": "order", "template": "init_throw"}))
     # many locals: 40 bindings with shadowing, summed and printed in a fixed order
     for variant in range(3):
         stmts = []
